@@ -101,6 +101,7 @@ impl io::Write for ShortPipe {
 }
 impl tokio::io::AsyncRead for ShortPipe {
     fn poll_read(mut self: Pin<&mut Self>, _cx: &mut Context<'_>, buf: &mut tokio::io::ReadBuf<'_>) -> Poll<io::Result<()>> {
+        if crate::interrupted_now() { return Poll::Ready(Err(io::Error::new(io::ErrorKind::Interrupted, "interrupted system call"))); }
         let me = &mut self.inner;
         if me.next < me.segs.len() {
             let seg = &mut me.segs[me.next];
@@ -151,6 +152,34 @@ pub fn sendlist(a: &[String]) {
             let mut c = AsyncConnection::connect(pipe).await.expect("greeting");
             let r = if single { c.send(first).await } else { let mut l = CommandList::new(first); for x in it { l.add(x); } c.send_list(l).await };
             println!("send={}", if r.is_ok() { "ok" } else { "err" });
+            println!("wire={}", hex(&c.into_inner().inner.out));
+        });
+    }
+}
+
+/// shorthand <sync|async> <n> <hex stream incl. greeting> <cut offsets...> [i<k>] : connect, then `command` (n = 1) or
+/// `command_list` with the commands ca, cb, ...; prints the result and everything the transport received.
+pub fn shorthand(a: &[String]) {
+    use mpd_protocol::command::{Command, CommandList};
+    let n: usize = a[1].parse().unwrap();
+    let stream = args_bytes(&a[2..3])[0].clone();
+    let cuts: Vec<usize> = a[3..].iter().filter(|c| !c.starts_with('i')).map(|c| c.parse().unwrap()).collect();
+    if let Some(k) = a[3..].iter().find_map(|c| c.strip_prefix('i')) { crate::INTERRUPT_AT.store(k.parse().unwrap(), std::sync::atomic::Ordering::SeqCst); }
+    let pipe = ShortPipe { inner: Pipe { segs: segments(&stream, &cuts), next: 0, out: Vec::new(), reads: 0 }, max: 0 };
+    let names: Vec<String> = (0..n).map(|k| format!("c{}", (b'a' + k as u8) as char)).collect();
+    let mut it = names.iter().map(|s| Command::new(s.as_str()));
+    let first = it.next().unwrap();
+    if a[0] == "sync" {
+        let mut c = Connection::connect(pipe).expect("greeting");
+        let r = if n == 1 { c.command(first) } else { let mut l = CommandList::new(first); for x in it { l.add(x); } c.command_list(l) };
+        match r { Ok(r) => show(&r), Err(e) => show_err(&e) }
+        println!("wire={}", hex(&c.into_inner().inner.out));
+    } else {
+        let rt = tokio::runtime::Builder::new_current_thread().build().unwrap();
+        rt.block_on(async move {
+            let mut c = AsyncConnection::connect(pipe).await.expect("greeting");
+            let r = if n == 1 { c.command(first).await } else { let mut l = CommandList::new(first); for x in it { l.add(x); } c.command_list(l).await };
+            match r { Ok(r) => show(&r), Err(e) => show_err(&e) }
             println!("wire={}", hex(&c.into_inner().inner.out));
         });
     }
